@@ -12,6 +12,24 @@ CHECKS = {
         text="Every non-zero seed of the alphabets O/W1/W2/WZ/BYTE, dense chained seeds, all carry-operand products and complete sub-cubes of each scrambler operand are stepped in lock-step with an independent transcription of the Blackman-Vigna C sources (output and successor state); for the 14 linear engines the transition matrix extracted from the implementation equals the reference matrix, which extends the step comparison to all 2^n states of the linear model.",
         note="reference models from the published sources, self-validated against published vectors on every run; linearity of the engine beyond weight 2 (quick) / 3 (thorough) for the all-states claim; scrambler inputs outside the enumerated sub-cubes are not covered for the 64-bit two-operand adders",
         ref="4/C01"),
+    "C04": dict(
+        engine="E3+E2", cat="model_checking",
+        technique="128x128 GF(2) step matrix extracted from the code == xor128 reference matrix (all 2^128 states of the model), bound by exhaustive weight<=3 conformance replay; lock-step enumeration of seed alphabets, dense chains and complete sub-cubes",
+        text="XorShiftRng is fully linear, so equality of the transition matrix extracted from the implementation with the matrix of Marsaglia's xor128 decides the step for every state; the model is bound to the code by replaying its predictions on every state of weight <= 3, walking zeros, all-ones and dense chains, and from_seed decoding is enumerated on every non-zero seed of O/W1/W2/WZ/BYTE in lock-step with the reference.",
+        note="xor128 reference validated against the paper's outputs; algebraic terms of degree > 3 hidden from the replay are not excluded",
+        ref="4/C04"),
+    "C06": dict(
+        engine="E3", cat="model_checking",
+        technique="step, jump and long_jump matrices extracted from the code on all basis states; J = T^(2^(n/2)) and L = T^(2^(3n/4)) decided by repeated squaring for all 2^n states; exhaustive low-weight conformance replay and direct commutation checks on the real code",
+        text="For each of the 12 jump-capable types the three GF(2) matrices are extracted from the implementation and the jump identities are decided on that model for every state; predictions are replayed on all weight-2 (and weight-3 where stated) states, and the linearity-free relations jump/step/long_jump commute are enumerated directly on the code.",
+        note="linearity beyond the replayed weights; state image via the crates' serde feature validated by from_seed(image) == generator",
+        ref="4/C06"),
+    "C07": dict(
+        engine="E3", cat="model_checking",
+        technique="order of the GF(2) transition matrix extracted from the code: rank n, T^(2^n) = T, T^((2^n-1)/p) != I for all 13 prime factors; conformance replay binds the matrix to the code; collisions searched on the real code when binding fails",
+        text="ord(T) = 2^n - 1 for the matrix extracted from the implementation is equivalent to the non-zero states forming one cycle of length 2^n - 1; it is decided for all 15 linear types (7 distinct engines) and the matrix is bound to the code by exhaustive low-weight replay. A singular or non-linear step is turned into a concrete colliding pair of states on the real code.",
+        note="primality of the factors of 2^512-1 (Miller-Rabin 40 bases + product check each run); linearity beyond replayed weights",
+        ref="4/C07"),
 }
 
 PLAN_REASON = "check not built yet (work in progress; DESIGN.md section 4 has the plan)"
